@@ -64,6 +64,12 @@ pub struct HistCfg {
     pub big_values: bool,
     pub max_snaps: usize,
     pub max_iters: usize,
+    #[serde(default)]
+    pub bias_snap: bool,
+    #[serde(default)]
+    pub bias_compact: bool,
+    #[serde(default)]
+    pub bias_reopen: bool,
 }
 
 #[derive(Clone, Debug, Serialize, Deserialize)]
@@ -452,7 +458,16 @@ fn gen_key(rng: &mut StdRng, cfg: &HistCfg) -> i64 {
 }
 
 fn gen_op(rng: &mut StdRng, g: &mut GenState, cfg: &HistCfg, cur: &OptSet) -> Op {
-    let r = rng.gen_range(0..100);
+    let mut r = rng.gen_range(0..100);
+    if cfg.bias_snap && rng.gen_bool(0.12) {
+        r = rng.gen_range(66..83);
+    }
+    if cfg.bias_compact && rng.gen_bool(0.12) {
+        r = rng.gen_range(83..91);
+    }
+    if cfg.bias_reopen && rng.gen_bool(0.08) {
+        r = 92;
+    }
     let fill = cfg.profile == "fill";
     if r < 46 || (fill && r < 70) {
         Op::Put {
